@@ -218,6 +218,9 @@ class Gen:
         if rec.get("entry") in ("frame", "frame_col") and dfam in ("daily", "hourly") and base.get("src") != "sample" \
                 and r.random() < 0.2:
             rec["dup"] = 1    # a feed that re-sends some timestamps (the first record of a timestamp counts)
+        rec.pop("res", None)
+        if dfam == "caltrack" and rec.get("entry") == "frame" and base.get("src") != "sample" and r.random() < 0.25:
+            rec["res"] = 30   # half-hourly readings and weather
         rec.pop("feed", None)
         if rec.get("entry") == "series" and dfam != "hourly" and base.get("src") != "sample" and r.random() < 0.3:
             rec["feed"] = r.choice([1, 2, 3])
@@ -595,6 +598,10 @@ class Gen:
             rec3 = dict(rec2, obs="partnan", tgap=0)
             self.emit("PREDICT_PAIR", m=m0, recipe=rec3, alter="partnan2", seq=True)
             self.emit("PREDICT_PAIR", m=m0, recipe=dict(rec2, tgap=0), alter="monthnan")
+            if base0["fam"] == "caltrack" and base0.get("src") != "sample":
+                # half-hourly readings and weather with scattered missing reads
+                self.emit("PREDICT_PAIR", m=m0, recipe=dict(rec2, tgap=0, entry="frame", res=30, span="month"), alter="partnan")
+                self.cost += 2 * PRED_COST["caltrack"]
             if base0["fam"] != "hourly" and base0.get("src") != "sample":
                 # the call form that omits the meter series, against the form that passes it, with the weather feed in UTC
                 rec4 = dict(rec2, tgap=0, entry="series", feed=r.choice([1, 2]))
@@ -608,6 +615,9 @@ class Gen:
             self.cost += 2 * PRED_COST.get(self.models[m0]["fam"], 0.3)
             if self.models[m0]["fam"] == "billing":
                 self.emit("PREDICT_PAIR", m=m0, recipe=dict(rec2, tgap=0), alter="scaled", agg=r.choice(["monthly", "bimonthly"]))
+                # aggregated, with no usage at all: either no aggregated prediction is produced, or the same one
+                self.emit("PREDICT_PAIR", m=m0, recipe=dict(rec2, tgap=0), alter=r.choice(["allnan", "absent"]),
+                          agg=r.choice(["monthly", "bimonthly"]))
             self.cost += 4 * PRED_COST.get(self.models[m0]["fam"], 0.3)
 
     def _fit_after_failed(self, fam, profile, base_fail, base_then, ignore=True):
@@ -1004,7 +1014,7 @@ class Gen:
                 args = dict(m=ms, recipe=rec, alter=alter)
                 if m["fam"] == "billing" and r.random() < 0.35:
                     # aggregated predictions: only an alteration that keeps the missing-usage pattern is comparable
-                    args["alter"] = "scaled"
+                    args["alter"] = r.choice(["scaled", "scaled", "allnan", "absent"])
                     rec["obs"] = "present"
                     args["agg"] = r.choice(["monthly", "bimonthly"])
                 if r.random() < 0.5:
